@@ -270,6 +270,22 @@ def check_value(out, fail, produce, mod, cid, expected, label, st, bname, REC, R
              % (label, desc, ran_again, ran_third, domain.describe(again[1], 80)))
     if ran_other != 0:
         fail("forgetting a call lost another call's entry", label)
+    if out["obs"]["forget_checks"] % 3 == 0:
+        # everything in the cluster is forgotten: the call (same value as before) runs once more and is served afterwards
+        import twosigma.memento as _m
+
+        _m.forget_cluster(produce.fn_reference().cluster_name)
+        mark = REC.mark()
+        again = call(produce, "normal", cid)
+        ran_again = len(REC.since(mark))
+        mark = REC.mark()
+        third = call(produce, "normal", cid)
+        ran_third = len(REC.since(mark))
+        out["obs"]["forget_everything_checks"] += 1
+        if ran_again != 1 or ran_third != 0 or third[0] != "ret" or not domain.eq_safe(third[1], expected)[0]:
+            fail("forgetting a call does not make exactly that call run once again",
+                 "%s value %s: after everything in the cluster was forgotten the body ran %d then %d times, outcome %s"
+                 % (label, desc, ran_again, ran_third, domain.describe(third[1] if third[0] == "ret" else third, 80)))
 
 
 def check_exception(out, fail, produce, mod, cid, cls, args, label, st, bname, REC, MementoException,
